@@ -111,16 +111,27 @@ def build():
            known=['atomic']),
     ])
     # the first loop of AnnotationStore::subselectors (resolution of the parts of a complex selector), as a region
+    u.trusted_text('''
+/// R-outline: stands for `builders.iter().any(|builder| builder.is_complex())`; the body is that expression (closures carry no contract)
+#[verifier::external_body]
+pub fn vx_any_complex(builders: &Vec<SelectorBuilder>) -> (r: bool)
+    ensures r == (exists|i: int| 0 <= i < builders@.len() && (#[trigger] builders@[i]).complex()),
+{ builders.iter().any(|builder| builder.is_complex()) }
+''', 'external_body vx_any_complex: Iterator::any over is_complex (std semantics)')
     SIG = 'fn subselectors__resolve(&mut self, builders: Vec<SelectorBuilder>) -> Result<Vec<Selector>, StamError>'
     u.impl(AS, 'impl AnnotationStore', [
         Fn('subselectors', emit_name='subselectors__resolve', props=P, ret='r',
            region=('let mut tmp = Vec::with_capacity(builders.len());', 'if tmp.len() == 1 {', SIG, '        Ok(tmp)'),
-           rewrites=[('R-forname', r'for builder in builders \{', 'for builder in vx_it: builders {')],
+           rewrites=[('R-forname', r'for builder in builders \{', 'for builder in vx_it: builders {'),
+                     # R-outline: the closure-taking `any` (std semantics: some element satisfies the predicate)
+                     ('R-outline', r'builders\.iter\(\)\.any\(\|builder\| builder\.is_complex\(\)\)', 'vx_any_complex(&builders)', 'opt')],
            ensures=[('nested_rejected', '(exists|i: int| 0 <= i < builders@.len() && (#[trigger] builders@[i]).complex()) ==> r is Err'),
-                    ('nested_first_part_no_change', f'builders@.len() > 0 && builders@[0].complex() ==> r is Err && {UNCH}'),
+                    # C14: a nested complex selector is rejected before anything is resolved, wherever it stands
+                    ('nested_no_change', f'(exists|i: int| 0 <= i < builders@.len() && (#[trigger] builders@[i]).complex()) ==> r is Err && {UNCH}'),
                     ('only_text_side', 'final(self).dv() == old(self).dv() && final(self).av() == old(self).av()')],
            loops={r'vx_it: builders\b': dict(invariant=[
                ('none_complex_so_far', 'forall|i: int| 0 <= i < vx_it.index@ ==> !(#[trigger] builders@[i]).complex()'),
+               ('no_nested_part', 'forall|i: int| 0 <= i < builders@.len() ==> !(#[trigger] builders@[i]).complex()'),
                ('frame', 'self.dv() == old(self).dv() && self.av() == old(self).av()'),
                ('first', 'vx_it.index@ == 0 ==> self.tv() == old(self).tv()')])}),
     ])
